@@ -15,6 +15,8 @@ func intrinsicEffect(name string) (string, bool) {
 	switch {
 	case strings.HasPrefix(name, "sync/atomic.Load"), strings.HasPrefix(name, "(*sync/atomic.Value).Load"):
 		return "none", true
+	case name == "(*sync/atomic.Value).Store":
+		return "atomicvalue", true
 	case strings.HasPrefix(name, "sync/atomic.Store"), strings.HasPrefix(name, "sync/atomic.Add"),
 		strings.HasPrefix(name, "sync/atomic.CompareAndSwap"), strings.HasPrefix(name, "sync/atomic.Swap"):
 		return "arg0", true
@@ -22,7 +24,7 @@ func intrinsicEffect(name string) (string, bool) {
 		return "none", true
 	case strings.HasPrefix(name, repoPfx+"logging."), strings.HasPrefix(name, "math."), strings.HasPrefix(name, "runtime.Gosched"),
 		strings.HasPrefix(name, "time.Sleep"), name == repoPfx+"util.Sleep", strings.HasPrefix(name, "strings."), strings.HasPrefix(name, "strconv."),
-		strings.HasPrefix(name, "reflect.DeepEqual"), name == "(time.Duration).Nanoseconds", name == "(time.Duration).Milliseconds":
+		strings.HasPrefix(name, "reflect."), name == "(time.Duration).Nanoseconds", name == "(time.Duration).Milliseconds":
 		return "none", true
 	case strings.HasPrefix(name, "fmt.Sprint"), strings.HasPrefix(name, "fmt.Errorf"), strings.HasPrefix(name, "errors.New"),
 		strings.HasPrefix(name, "github.com/pkg/errors."):
@@ -55,6 +57,18 @@ func (x *Engine) interfere(fr *Frame, st *State, a *Addr) {
 func (x *Engine) intrinsic(fr *Frame, st *State, name string, callee *ssa.Function, args []Val, sig *types.Signature, pos string) (Val, bool) {
 	rt := func() types.Type { return sig.Results().At(0).Type() }
 	switch {
+	case name == "(*sync/atomic.Value).Load":
+		x.regComp("AtomicValue", "(Array Int Iface)")
+		v := Val{T: x.name("av", "Iface", fmt.Sprintf("(select %s %s)", x.get(st, "AtomicValue"), args[0].T)), Typ: rt()}
+		x.assume(st, x.wf(rt(), v.T, st))
+		return v, true
+	case name == "(*sync/atomic.Value).Store":
+		x.regComp("AtomicValue", "(Array Int Iface)")
+		x.set(st, "AtomicValue", fmt.Sprintf("(store %s %s %s)", x.get(st, "AtomicValue"), args[0].T, args[1].T))
+		if !args[0].Fresh {
+			x.bumpEpoch(st)
+		}
+		return Val{}, true
 	case strings.HasPrefix(name, "sync/atomic.Load"):
 		a := x.atomicAddr(fr, st, args[0], pos)
 		x.interfere(fr, st, a)
@@ -170,6 +184,9 @@ func (x *Engine) intrinsic(fr *Frame, st *State, name string, callee *ssa.Functi
 			r := x.alloc(st)
 			return Val{T: x.name("err", "Iface", fmt.Sprintf("(mk_iface %d %s)", x.tagOfName("*opaque.error"), r)), Typ: rt(), Fresh: true}, true
 		}
+	case name == "reflect.TypeOf", name == "reflect.ValueOf":
+		x.abstracted(name + ": opaque result, no effect")
+		return resultVal(sig, x.freshResults(st, sig, "rf")), true
 	case strings.HasPrefix(name, "fmt.Sprint"), strings.HasPrefix(name, "strconv."), strings.HasPrefix(name, "strings."):
 		x.abstracted(name + ": opaque result")
 		return resultVal(sig, x.freshResults(st, sig, "s")), true
